@@ -139,3 +139,42 @@ Definition validate (now lw : Z) (opts : copts) (claims : cclaims) : res unit :=
 (* leeway omitted *)
 Definition validate_default (now : Z) (opts : copts) (claims : cclaims) : res unit :=
   validate now c10_default_leeway opts claims.
+
+(* ---------- ClaimsRegistry(...) used directly: no built-in rule ---------- *)
+Definition check_claim_base (opts : copts) (k : str) (v : pv) : res unit :=
+  if str_mem k c10_base_validate_methods then Err EOracleMiss   (* a validate_ method on the base class: unknown to the model *)
+  else if dmem opts k then check_value opts k v
+  else Ok tt.
+
+Fixpoint run_claims_base (opts : copts) (l : cclaims) : res unit :=
+  match l with
+  | [] => Ok tt
+  | (k, v) :: r => do _ <- check_claim_base opts k v; run_claims_base opts r
+  end.
+
+Definition validate_base (opts : copts) (claims : cclaims) : res unit :=
+  if missing opts claims then Err (EJose MissingClaimError)
+  else run_claims_base opts claims.
+
+(* ---------- the registry as an object with a history of validate() calls ----------
+   __init__ stores now, leeway, options and essential_keys; validate reads them
+   and writes nothing. *)
+Record registry := { r_now : Z; r_leeway : Z; r_options : copts; r_essential : list str }.
+
+Definition registry_init (now lw : Z) (opts : copts) : registry :=
+  {| r_now := now; r_leeway := lw; r_options := opts;
+     r_essential := map fst (filter (fun ko => py_truth (oget (o_essential (snd ko)))) opts) |}.
+
+Definition validate_obj (r : registry) (claims : cclaims) : res unit * registry :=
+  (if existsb (claim_is_none claims) (r_essential r) then Err (EJose MissingClaimError)
+   else run_claims (r_now r) (r_leeway r) (r_options r) claims,
+   r).
+
+Fixpoint run_history (r : registry) (h : list cclaims) : list (res unit) * registry :=
+  match h with
+  | [] => ([], r)
+  | c :: t =>
+      let (x, r1) := validate_obj r c in
+      let (xs, r2) := run_history r1 t in
+      (x :: xs, r2)
+  end.
